@@ -32,6 +32,11 @@ PROPS = {
                    "eolib.packet.packet_sequencer.PacketSequencer.next_sequence",
                    "eolib.packet.packet_sequencer.PacketSequencer.set_sequence_start"],
     ),
+    "C09": dict(
+        modules=["contracts.number", "contracts.strings", "contracts.writer", "lemmas.c09"],
+        title="EoWriter atomic validation and sanitisation",
+        trusted=["cp1252 encode table E (external codec; pointwise, total, stateless)"],
+    ),
     "C10": dict(
         modules=["contracts.encrypt", "lemmas.c10"],
         title="encryption primitives",
